@@ -10,7 +10,8 @@ import itertools
 
 from ..engine import finite, flow
 from ..engine.source import AnalysisError
-from .common import callee_name, calls_in
+from ..engine.mutate import Variant
+from .common import callee_name, calls_in, norm_record_events
 
 
 def check_built_notifies(ctx, consequence: str) -> int:
@@ -730,6 +731,7 @@ def check_outputs_recorded_at_completion(ctx, why: str):
     fi = ctx.prog.func("executor.Executor.execute_job")
     n = 0
     for tr, st in flow.paths_of(fi):
+        tr = norm_record_events(ctx.prog, tr)
         mc = [k for k, e in enumerate(tr) if e[0] == "call" and e[1] == "step.mark_completed"]
         if not mc:
             continue
@@ -783,3 +785,9 @@ def check_claims_replaced(ctx):
         ctx.check(len(cs_) == 1 and not cond, ds.fq, f"{setter}() is called for every new definition, also when nothing is declared", f"calls: {len(cs_)}, guarded by {cond}: a step that is re-declared without {'resources' if setter == 'set_resources' else 'overrides'} on a reused node keeps the ones of its previous definition (it waits for a resource it no longer asks for, or runs in an environment it no longer declares)", "unconditional", where=ctx.where_of(ds))
     callers = sorted({cs.caller.fq for sites in ctx.cg.sites.values() for cs in sites if callee_name(cs.node) == "set_resources"})
     ctx.check({"workflow.Workflow.define_step", "step.Step.after_recycle"} <= set(callers), "step.Step.set_resources", "both declaration paths (new row, full recycle) store the claims", f"callers: {callers}", "define_step and after_recycle")
+
+
+# A sketch of the repair of F63/F64 (known findings of R-C09-13): the run reports go through helpers that select by the
+# node's current state.  Not behaviour-preserving; replayed as a variant by every property with a rule about those calls,
+# none of which may alarm on it.
+REPAIR_SKETCH_F63 = Variant("run-reports-repaired-through-helpers", "executor.py", lambda t: (t.replace("            self.workflow.update_file_hashes(\n                new_out_hashes,\n                cause=HashUpdateCause.SUCCEEDED if run.success else HashUpdateCause.FAILED,\n            )\n", "            self._record_outputs(\n                new_out_hashes,\n                HashUpdateCause.SUCCEEDED if run.success else HashUpdateCause.FAILED,\n            )\n", 1).replace("            self.workflow.update_file_hashes(new_inp_hashes, cause=HashUpdateCause.FAILED)\n        elif wants_defer:", "            self._record_changed_inputs(new_inp_hashes)\n        elif wants_defer:", 1).replace("    def _record_written_outputs(self, out_hashes: Mapping[str, FileHash]) -> None:\n", "    def _record_outputs(self, out_hashes, cause) -> None:\n        kept = {}\n        for path, file_hash in out_hashes.items():\n            file = self.workflow.find(File, path)\n            if file is not None and file.get_state() in (FileState.PLANNED, FileState.OUTDATED):\n                kept[path] = file_hash\n        self.workflow.update_file_hashes(kept, cause=cause)\n\n    def _record_changed_inputs(self, inp_hashes) -> None:\n        kept = {}\n        for path, file_hash in inp_hashes.items():\n            file = self.workflow.find(File, path)\n            if file is not None and file.get_state() in (FileState.CONFIRMED, FileState.MISSING, FileState.BUILT, FileState.OUTDATED, FileState.PLANNED):\n                kept[path] = file_hash\n        self.workflow.update_file_hashes(kept, cause=HashUpdateCause.FAILED)\n\n    def _record_written_outputs(self, out_hashes: Mapping[str, FileHash]) -> None:\n", 1)) if "new_inp_hashes, cause=HashUpdateCause.FAILED)\n        elif wants_defer:" in t and "                new_out_hashes,\n                cause=HashUpdateCause.SUCCEEDED if run.success" in t else None, "not behaviour-preserving: a sketch of the F63/F64 repair (selection by state in recording helpers); every rule of this property, R-C09-13 included, must be silent on it")
